@@ -60,6 +60,9 @@ pub struct DCfg {
     /// one SelectorSubscriber object is notified by this many threads at once (as when it is registered with
     /// several stores); every thread presents the same sequence of values in lock step
     pub sel_race: Option<usize>,
+    /// an unread, empty iterator is dropped while another thread's unsubscribe() is parked inside
+    /// on_unsubscribe (the subscriber list is busy); afterwards actions flow to a second, live iterator
+    pub quiet_drop: bool,
 }
 
 pub fn gen(rng: &mut Rng, tiny: bool, focus: &str) -> DCfg {
@@ -139,6 +142,7 @@ pub fn gen(rng: &mut Rng, tiny: bool, focus: &str) -> DCfg {
             Some((_, p)) if p != POL_BLOCK && (cfg!(miri) || !tiny) && rng.chance(1, if cfg!(miri) { 2 } else { 12 }) => *rng.pick(&[700u64, 900, 1400]),
             _ => 0,
         },
+        quiet_drop: (focus == "C14" && rng.chance(1, 8)) || rng.chance(1, 30),
         sel_race: if (focus == "C16" && rng.chance(1, 8)) || rng.chance(1, 40) { Some(rng.range(2, 4) as usize) } else { None },
         poison: if rng.chance(1, 16) { Some(rng.chance(2, 3)) } else { None },
         burst: if rng.chance(1, 10) { Some((rng.range(2, 4) as usize, if tiny { rng.range(1, 2) } else { rng.range(2, 12) } as usize)) } else { None },
@@ -178,6 +182,7 @@ pub fn describe(c: &DCfg) -> J {
         ("lone_subscriber_handover", J::B(c.lone)),
         ("on_unsubscribe_panics_inside_unsubscribe_then_stop", c.poison.map(|ch| J::s(if ch { "with a parked channeled subscriber holding a backlog" } else { "direct subscribers only" })).unwrap_or(J::Null)),
         ("selector_subscriber_notified_by_threads_in_lock_step", c.sel_race.map(|n| J::U(n as u64)).unwrap_or(J::Null)),
+        ("empty_iterator_dropped_while_subscriber_list_is_busy", J::B(c.quiet_drop)),
         ("burst_unsubscribe", c.burst.map(|(k, r)| J::s(format!("{} rounds: {} short-lived subscribers + one that stays, the {} unsubscribed by {} threads released together", r, k, k, k))).unwrap_or(J::Null)),
     ])
 }
@@ -311,6 +316,78 @@ pub fn execute_poison(seed: u64, how: u32, n_red: u32, perturb: u8, with_chan: b
     w
 }
 
+/// Iterators A (never read) and B (consumed to the end). With no action dispatched yet, T1 unsubscribes a
+/// subscriber whose on_unsubscribe parks at gate 1, T2 drops A meanwhile, the gate opens; then actions are
+/// dispatched and the store is stopped: B yields every pair and ends.
+fn execute_quiet_drop(c: &DCfg, seed: u64) -> W {
+    let ctx = Ctx::new(ScriptSrc::Table(vec![Script::plain()]), 3, seed, c.perturb, false);
+    let w = W::new(ctx, vec![StoreCfg { policy: POL_BLOCK, cap: 16, n_red: c.n_red, n_mw: 0, name: "rsvd".into(), ctor: 0 }]);
+    let sentinel = w.add_direct(0, NOGATE, false, true, false);
+    let q = w.add_direct_sub(0, true, |sub| sub.unsub_gate = 1);
+    let (aid, a_it) = w.add_iter(0, true);
+    let (bid, mut b_it) = w.add_iter(0, true);
+    let ta = w.add_direct(0, NOGATE, false, true, false);
+    w.set_twin(bid, ta.0);
+    let mut qkeep = None;
+    std::thread::scope(|sc| {
+        let w = &w;
+        let consumer = std::thread::Builder::new().name("consumer".into()).spawn_scoped(sc, move || {
+            loop {
+                w.ctx.ev(K::ItInv, 0, 0, bid, 0, 0, 0);
+                match b_it.next() {
+                    Some((st, act)) => {
+                        w.ctx.evz(K::ItNext, 0, act.id, bid, st.digest(), st.steps, st.valid() as u8, act.script);
+                    }
+                    None => {
+                        w.ctx.ev(K::ItNext, 0, 0, bid, 0, 0, 0);
+                        break;
+                    }
+                }
+            }
+            for _ in 0..2 {
+                w.ctx.ev(K::ItInv, 0, 0, bid, 0, 0, 0);
+                let x = b_it.next();
+                w.ctx.ev(K::ItNext, 0, x.as_ref().map(|p| p.1.id).unwrap_or(0), bid, 0, 0, x.is_some() as u8 + 2);
+            }
+            w.ctx.ev(K::ItDropInv, 0, 0, bid, 0, 0, 0);
+            drop(b_it);
+            w.ctx.ev(K::ItDropRet, 0, 0, bid, 0, 0, 0);
+        }).unwrap();
+        std::thread::scope(|s2| {
+            let t1 = std::thread::Builder::new().name("unsub".into()).spawn_scoped(s2, move || {
+                w.unsubscribe(0, q.0, q.1.as_ref());
+                q
+            }).unwrap();
+            if !w.ctx.gates[1].wait_parked(1) {
+                w.mark(MARK_GIVEUP, 8);
+                w.ctx.gates[2].wait();
+            }
+            let t2 = std::thread::Builder::new().name("dropper".into()).spawn_scoped(s2, move || {
+                // (r = 0: nothing was ever queued for this iterator and no action is in flight - not the
+                // early drop of the known finding)
+                w.ctx.ev(K::ItDropInv, 0, 0, aid, 0, 0, 0);
+                drop(a_it);
+                w.ctx.ev(K::ItDropRet, 0, 0, aid, 0, 0, 0);
+            }).unwrap();
+            crate::fam_a::wait_until(|| crate::fam_a::count_where(w, |e| e.k == K::ItDropInv && e.idx == aid) >= 1);
+            for _ in 0..50 {
+                std::thread::yield_now();
+            }
+            w.ctx.gates[1].open();
+            qkeep = Some(t1.join().unwrap());
+            t2.join().unwrap();
+        });
+        for k in 0..(2 + (seed % 3) as u32) {
+            w.dispatch(0, EP_INHERENT, Act { id: act_id(0, 1, k + 1), script: 0 });
+        }
+        w.stop(0, STOP_STOP);
+        consumer.join().unwrap();
+    });
+    w.read(0);
+    drop((sentinel, qkeep, ta));
+    w
+}
+
 pub const MARK_SELRACE: u32 = 12;
 
 /// One SelectorSubscriber, n threads calling on_notify with the same value at the same moment, value
@@ -356,6 +433,9 @@ fn execute_selrace(c: &DCfg, seed: u64, n: usize) -> W {
 }
 
 pub fn execute(c: &DCfg, seed: u64) -> W {
+    if c.quiet_drop {
+        return execute_quiet_drop(c, seed);
+    }
     if let Some(n) = c.sel_race {
         return execute_selrace(c, seed, n);
     }
@@ -963,6 +1043,9 @@ pub fn c14(h: &Hist, s: u8, v: &mut Verdicts) {
         let t = sub_times(h, si.id);
         if t.add_ret == 0 || t.add_ret > first_shutdown {
             continue;
+        }
+        if !h.evs.iter().any(|e| e.k == K::ItInv && e.idx == si.id) {
+            continue; // never read (dropped unread): it owes nothing; what its drop does to others shows there
         }
         let items: Vec<&Ev> = h.evs.iter().filter(|e| e.k == K::ItNext && e.idx == si.id).collect();
         let dropped_early = h.evs.iter().any(|e| e.k == K::ItDropInv && e.idx == si.id && e.r == 1);
